@@ -93,6 +93,7 @@ func (x *Exec) storeSet(s *State, h *Value, key *Value, val *Value) {
 		return
 	}
 	w := s.MutWorld(h.W)
+	w.bumpVer(h.Module, fam)
 	f := w.fam(fam, len(keys)).clone()
 	w.Fams[fam] = f
 	f.Has = storeN(f.Has, keys, True)
@@ -179,6 +180,7 @@ func (x *Exec) storeDelete(s *State, h *Value, key *Value) {
 		return
 	}
 	w := s.MutWorld(h.W)
+	w.bumpVer(h.Module, fam)
 	f := w.fam(fam, len(keys)).clone()
 	w.Fams[fam] = f
 	f.Has = storeN(f.Has, keys, False)
@@ -314,6 +316,7 @@ func init() {
 			if len(a) > 1 && a[1].K == KBytes {
 				segs = append(segs, x.bytesSegs(a[1].B)...)
 			}
+			x.noteIter(h.Module, normSegs(segs))
 			return []*Value{{K: KIter, Typ: x.resType(c, 0), W: h.W, Module: h.Module, It: &IterState{Module: h.Module, Prefix: normSegs(segs), Rev: rev}}}
 		}
 	}
@@ -321,10 +324,12 @@ func init() {
 	reg([]string{pSdk + "KVStoreReversePrefixIterator", "github.com/cosmos/cosmos-sdk/store/types.KVStoreReversePrefixIterator"}, iter(true))
 	reg([]string{"iface:KVStore.Iterator", "(github.com/cosmos/cosmos-sdk/store/prefix.Store).Iterator"}, func(x *Exec, s *State, r *Value, a []*Value, c *ast.CallExpr) []*Value {
 		h := x.asStore(s, r)
+		x.noteIter(h.Module, h.prefix())
 		return []*Value{{K: KIter, Typ: x.resType(c, 0), W: h.W, Module: h.Module, It: &IterState{Module: h.Module, Prefix: h.prefix()}}}
 	})
 	reg([]string{"iface:KVStore.ReverseIterator", "(github.com/cosmos/cosmos-sdk/store/prefix.Store).ReverseIterator"}, func(x *Exec, s *State, r *Value, a []*Value, c *ast.CallExpr) []*Value {
 		h := x.asStore(s, r)
+		x.noteIter(h.Module, h.prefix())
 		return []*Value{{K: KIter, Typ: x.resType(c, 0), W: h.W, Module: h.Module, It: &IterState{Module: h.Module, Prefix: h.prefix(), Rev: true}}}
 	})
 	builtins["iface:Iterator.Valid"] = func(x *Exec, s *State, r *Value, a []*Value, c *ast.CallExpr) []*Value {
